@@ -61,3 +61,106 @@ SUBSTITUTION = MapperContract(
     "C08.SubstitutionMapper", "pymbolic.mapper.substitutor:SubstitutionMapper", rec=sub_rec,
     ensures=[("intercept-or-identity", sub_post)], setup=sub_setup, extra_args=False, property_id="C08")
 SUBSTITUTION.allowed_exc = c04.IDENTITY.allowed_exc
+
+
+# ----------------------------------------------------------------------------- the substitution lemma over den
+# den(substitute(e), env) == den_sigma(e, env), proved per node class K by one step of structural induction:
+#   IH   den(self.rec(c), env) has the outcome of den_sigma(c, env) for every child c;
+#   step den(map_K(e), env) has the outcome of one unfolding of den_sigma at e:
+#          den(sigma(e), env)                                   if e is a Variable / Subscript / Lookup and sigma(e) is not None
+#          den's own defining clause for K with den_sigma in the recursive positions   otherwise.
+# n-ary classes are proved for every operand count 0..MAX_ARITY (stated bound) with arbitrary operands.
+from contracts.specs import den  # noqa: E402
+
+MAX_ARITY = 3
+
+
+def subst_then_den(self, expr, env):
+    return den(self(expr), env)
+
+
+def den_sigma_step(self, expr, env):
+    if isinstance(expr, (prim.Variable, prim.Subscript, prim.Lookup)):
+        r = self.subst_func(expr)
+        if r is not None:
+            return den(r, env)
+    return den_with_sigma_inside(expr, env)
+
+
+def den_with_sigma_inside(expr, env):
+    """den's defining clause at expr with den_sigma in the recursive positions (symbolic only)."""
+    raise NotImplementedError("ghost")
+
+
+def lemma_setup(n=None, field="children", nkw=None):
+    def st(I, inputs):
+        import z3
+        from pyvc import smt
+        from pyvc.smt import V, Bool, fn
+        from pyvc.values import BoundMethod, Conc, NativeHandler, PyTuple, SymV
+        selfv, expr, env = inputs[0], inputs[1], inputs[2]
+        envt = I.lift(env)
+        if n is not None:
+            expr.fields[field] = PyTuple([SymV(z3.Const(f"child{i}", V)) for i in range(n)])
+        if nkw is not None:
+            from pyvc.values import PyDict
+            expr.fields["kw_parameters"] = PyDict({f"k{i}": SymV(z3.Const(f"kwchild{i}", V)) for i in range(nkw)})
+        R = fn("Rsub", V, V)
+
+        def sigma(I, self_obj, args, kwargs, star, dstar, node):
+            return SymV(fn("sigma", V, V)(I.lift(args[0])))
+        selfv.attrs["subst_func"] = BoundMethod(selfv, NativeHandler(sigma), "subst_func")
+
+        def rec(I, self_obj, args, kwargs, star, dstar, node):
+            c = I.lift(args[0])
+            t = R(c)
+            # induction hypothesis at this child, for the environment of the lemma
+            for suffix, sort in (("_v", V), ("_ok", Bool), ("_exc", V)):
+                I.ctx.assume(fn("den" + suffix, V, V, sort)(t, envt) == fn("dsig" + suffix, V, V, sort)(c, envt))
+            return SymV(t)
+        selfv.rec_contract = NativeHandler(rec)
+        I.tracked = [t for t in I.tracked if t[0] is not selfv]
+        I.track(selfv)
+
+        def dws(I, args, kwargs, star, dstar, node):
+            I.spec_alias = {"den": "dsig"}
+            try:
+                return I.call_function(Conc(den), list(args), {})
+            finally:
+                I.spec_alias = {}
+        I.contracts[id(den_with_sigma_inside)] = dws
+    return st
+
+
+def lemma_requires(self, expr, env):
+    from contracts.specs import node_inv
+    return node_inv(expr)
+
+
+def lemma_contracts():
+    from pyvc import verify
+    out = []
+    nary = {"Sum", "Product", "BitwiseOr", "BitwiseXor", "BitwiseAnd", "LogicalOr", "LogicalAnd", "Min", "Max"}
+    for k in verify.node_class_table():
+        if k.__module__ != "pymbolic.primitives":
+            continue
+        name = k.__name__
+        if name in ("QuotientBase", "_ShiftOperator", "CommonSubexpression", "CallWithKwargs"):
+            # QuotientBase: abstract (both sides refuse, with different error classes); CommonSubexpression: the identity traversal
+            # returns the constant 0 for a falsy mapped child (known finding C04-identity-cse-zero), not claimed here; CallWithKwargs: the
+            # keyword mapping is rebuilt through a dict comprehension whose symbolic form the engine cannot match (bounded only)
+            continue
+        if name == "Call":
+            variants = [(f"[parameters={n}]", lemma_setup(n, "parameters")) for n in range(MAX_ARITY + 1)]
+        elif name in nary:
+            variants = [(f"[arity={n}]", lemma_setup(n)) for n in range(MAX_ARITY + 1)]
+        else:
+            variants = [("", lemma_setup())]
+        for tag, st in variants:
+            out.append(FunctionContract(f"C08.substitution-lemma[{name}]{tag}", subst_then_den,
+                                        [("self", "obj:pymbolic.mapper.substitutor:SubstitutionMapper"), ("expr", f"node:{name}"), ("env", "strmap")],
+                                        requires=lemma_requires, refines=den_sigma_step, setup=st, property_id="C08"))
+    return out
+
+
+LEMMA = lemma_contracts()
